@@ -98,6 +98,7 @@ def check_C02(ctx):
     # design level: the definitions on small fields
     for b in ([2, 4] if not ctx.thorough else [2, 3, 4, 5, 6, 8]):
         model_must_hold(ctx, "MC_Field", "MC_Field_%d.cfg" % b)
+    algo_models(ctx)
     trace = ctx.path("trace.ndjson")
     rc, info, out = harness(["code", "--family", "c02", "--out", trace, "--seed", ctx.seed, "--tier", ctx.tier])
     ctx.evaluations = info["events"]
@@ -105,6 +106,7 @@ def check_C02(ctx):
     r = validate_star(ctx, "Trace_Code", "Trace_Code.cfg", trace, parts=10 if ctx.thorough else 8, what="encode round")
     ctx.distinct = r["events"]
     sample_events(ctx, r["lines"])
+    history_component(ctx, roles=("enc",))
 
 
 # ======================================================================
@@ -215,6 +217,25 @@ def validate_codec_traces(ctx, prefix, role, limit_files=None):
     return r
 
 
+def free_component(ctx, roles=("enc", "dec"), runs=None, length=80, alloc=False, big=False, engines=None):
+    """Random histories OUTSIDE the bounded graph (arbitrary small/medium configurations, indexes, lengths, invalid resets):
+    the harness only records; Trace_Codec.tla decides every return value, snapshot, exposed digest (and allocation)."""
+    runs = runs or (2400 if ctx.thorough else 180)
+    for role in roles:
+        prefix = ctx.path("free_%s.trace" % role)
+        args = ["freewalk", "--role", role, "--trace", prefix, "--seed", ctx.seed, "--runs", runs, "--len", length]
+        if alloc:
+            args += ["--alloc", "1"]
+        if big:
+            args += ["--bigshards", "1"]
+        if engines:
+            args += ["--engines", ",".join(engines)]
+        rc, info, out = harness(args)
+        ctx.evaluations += info["steps"]
+        ctx.extra.setdefault("free_walks", []).append({"role": role, "runs": info["runs"], "steps": info["steps"], "events": info["events"]})
+        validate_codec_traces(ctx, prefix, role)
+
+
 CODEC_ASSUME = ["the projection reported by hook H2 (configuration, inner rate, counters, received index sets) plus the result bytes is everything later calls depend on",
                 "poison hook H1 overwrites the whole working memory of every object under test with a never-repeating stream; reference objects run with poison off",
                 "palette of configurations and argument classes is explicit (MC_Codec.tla); bytes are compared with a fresh dedicated-rate reference codec (Naive engine) whose output C02 pins to the closed form"]
@@ -246,6 +267,7 @@ def check_C06(ctx):
     ctx.distinct = covered
     ctx.exhaustive = True
     oneshot_cases(ctx, maxshards=2 if not ctx.thorough else 3)
+    free_component(ctx, runs=None if ctx.thorough else 120, engines=None if ctx.thorough else ["naive", "default", "nosimd"])
 
 
 def check_C07(ctx):
@@ -266,6 +288,7 @@ def check_C07(ctx):
             replay_samples(ctx, gp, 1)
     ctx.distinct = covered
     ctx.exhaustive = True
+    free_component(ctx, runs=None if ctx.thorough else 120, engines=None if ctx.thorough else ["naive", "default", "ssse3"])
 
 
 def check_C05(ctx):
@@ -275,7 +298,7 @@ def check_C05(ctx):
     ctx.assumptions = CODEC_ASSUME
     if ctx.replay:
         return replay_script(ctx)
-    model_must_hold(ctx, "MC_Algo", "MC_Algo_4_enc.cfg", workers=8) if os.path.exists(os.path.join(SPEC, "MC_Algo_4_enc.cfg")) else None
+    algo_models(ctx)
     covered = 0
     walks, length = (5000, 200) if ctx.thorough else (360, 40)
     for role in ("enc", "dec"):
@@ -289,6 +312,7 @@ def check_C05(ctx):
     info = replay(ctx, gp, "walks", walks=walks // 4, length=length, engines=["default"])
     covered += info["edges_covered"]
     ctx.distinct = covered
+    free_component(ctx)
 
 
 def check_C11(ctx):
@@ -325,6 +349,7 @@ def check_C12(ctx):
     ctx.distinct = covered
     ctx.exhaustive = True
     code_family(ctx, "c12")
+    free_component(ctx, runs=None if ctx.thorough else 120)
 
 
 def check_C17(ctx):
@@ -345,6 +370,7 @@ def check_C17(ctx):
         validate_codec_traces(ctx, tr, role)
         replay_samples(ctx, gp, 1)
     ctx.distinct = covered
+    free_component(ctx, runs=None if ctx.thorough else 90, alloc=True, big=True, engines=["naive", "default", "avx2"])
 
 
 def replay_script(ctx):
@@ -428,6 +454,16 @@ CODE_ASSUME = ["TLC arithmetic and CommunityModules Java overrides are trusted",
                "given shards of decode rounds are originals plus a reference encoder's recovery, which C02's events pin to the closed form"]
 
 
+def history_component(ctx, roles=("enc", "dec"), walks=None, length=40):
+    """Reused-object histories for the byte-level properties: seeded walks over the Codec.tla graph (rounds, resets across
+    shapes and rates, re-housing, failing calls in between) on every engine with poisoned memory; every result compared with
+    a fresh reference codec and the projection with the model after every step."""
+    walks = walks or (2000 if ctx.thorough else 240)
+    for role in roles:
+        gp, nn, ne = codec_graph(ctx, role, "rate", "_big" if ctx.thorough else "")
+        replay(ctx, gp, "walks", walks=walks, length=length)
+
+
 def check_C01(ctx):
     ctx.rule = ("decode rounds of the real code on sufficient shard sets: every (rate,k,r) with k+r<=7 (thorough 10) with maximum-loss, scattered, burst and "
                 "surplus patterns, random mid-size configurations, envelope corners and chunk edges at maximum loss, all engines and kinds incl. the one-shot "
@@ -438,6 +474,7 @@ def check_C01(ctx):
         return validate_star(ctx, "Trace_Code", "Trace_Code.cfg", ctx.replay, parts=1)
     algo_models(ctx, "dec")
     code_family(ctx, "c01", what="decode round")
+    history_component(ctx, roles=("dec",))
 
 
 def check_C13(ctx):
@@ -458,10 +495,19 @@ def check_C04(ctx):
         return validate_star(ctx, "Trace_Code", "Trace_Code.cfg", ctx.replay, parts=1)
     model_must_hold(ctx, "MC_Layout", "MC_Layout.cfg") if os.path.exists(os.path.join(SPEC, "MC_Layout.cfg")) else None
     code_family(ctx, "c04", what="round at an uncommon shard size")
+    history_component(ctx)
 
 
-def algo_models(ctx, which):
-    pass
+def algo_models(ctx, which=None):
+    """Design level: the transcribed procedures (Algo.tla) on GF(4) and GF(16): encoders = closed form for every
+    poison value, decoders restore every sufficient subset, primitive schedules agree on the determined region."""
+    model_must_hold(ctx, "MC_Algo", "MC_Algo_2.cfg", workers=4)
+    model_must_hold(ctx, "MC_Algo", "MC_Algo_4_full.cfg" if ctx.thorough else "MC_Algo_4.cfg", workers=8, timeout=3600)
+
+
+def prim_models(ctx):
+    model_must_hold(ctx, "MC_Prim", "MC_Prim_2.cfg", workers=2)
+    model_must_hold(ctx, "MC_Prim", "MC_Prim_4.cfg", workers=4)
 
 
 # ======================================================================
@@ -526,6 +572,10 @@ def check_C09(ctx):
     gp, nn, ne = codec_graph(ctx, "enc", "rs")
     replay(ctx, gp, "edges", acts=["reset", "encode", "iter"], engines=["default"])
     code_family(ctx, "c09", what="default-rate vs dedicated round")
+    # the API layers over call sequences, failing calls included: ReedSolomon* graph walks and one-shot cases run back to back
+    gp, nn, ne = codec_graph(ctx, "dec", "rs")
+    replay(ctx, gp, "walks", walks=120, length=40, engines=["default"])
+    oneshot_cases(ctx, maxshards=2 if not ctx.thorough else 3)
 
 
 # ======================================================================
@@ -557,6 +607,7 @@ def check_C15(ctx):
         return validate_star(ctx, "Trace_Prim", "Trace_Prim.cfg", ctx.replay, parts=1)
     for b in ([2, 4] if not ctx.thorough else [2, 3, 4, 5, 6, 8]):
         model_must_hold(ctx, "MC_Field", "MC_Field_%d.cfg" % b)
+    prim_models(ctx)
     prim_trace(ctx, "tables,mul,xf,evalpoly", parts=6 if not ctx.thorough else 10)
     if ctx.thorough:
         rc, info, out = harness(["prims", "--family", "mulx", "--out", ctx.path("x"), "--seed", ctx.seed], timeout=7200)
@@ -579,8 +630,10 @@ def check_C03(ctx):
         t = open(ctx.replay).read(300)
         mod = "Trace_Code" if ('"ev":"enc"' in t or '"ev":"dec"' in t or '"ev":"alleq"' in t) else "Trace_Prim"
         return validate_star(ctx, mod, mod + ".cfg", ctx.replay, parts=1)
+    prim_models(ctx)
     prim_trace(ctx, "xcase,xf", parts=4 if not ctx.thorough else 8, what="cross-engine primitive case")
     code_family(ctx, "c03", what="round on every engine")
+    history_component(ctx, walks=120 if not ctx.thorough else 1200)
 
 
 # ======================================================================
